@@ -52,6 +52,12 @@
 (* but not yet resumed listener reads the value that is current when it    *)
 (* finally runs (a later one, a dead variable, or the cancel exception).   *)
 (*                                                                         *)
+(* Ways to obtain a listener/collector pair: `signal s;` first, then        *)
+(* get_emitter() / get_collector() / connect() in any order (Hooked = {};   *)
+(* the order of the getters has no effect on the state, the replayer varies *)
+(* it), or signal::hook_up(fn) (signal.h:317-386; Hooked = {h}): the shared *)
+(* state does not exist until h's first co_await, see HookUp.               *)
+(*                                                                         *)
 (* Listeners subscribing on another thread than the collector: see the     *)
 (* companion module SignalConc.tla (atomic-operation grain on _chain).     *)
 (* Configurations: Signal_seq.cfg (Strict), Signal_free.cfg (all           *)
@@ -64,7 +70,9 @@ CONSTANTS Loop, Gated,          \* coroutine listeners
           Forms,                \* subset of {"inplace","rvalue","lvalue"}, or {"void"} for signal<void>
           MaxEmit, MaxHandles,
           CoroMode,             \* TRUE: the history runs inside a coroutine (coro_queue active)
-          Strict
+          Strict,
+          Hooked,               \* {} or {h}, h \in Loop \cup Gated: h awaits a hook_up() emitter, which creates the signal
+          RegEmit               \* how many values the registration function of hook_up may emit before it returns
 
 Coros == Loop \cup Gated
 Cbs == CbT \cup CbOnce \cup CbF
@@ -94,8 +102,11 @@ vars == <<refs, chain, cur, stor, cvar, held, sp, queue, st, received, due, sinc
 Val(n) == IF Void THEN 0 ELSE n
 NoStor == [has |-> FALSE, v |-> 0]
 
+(* with hook_up() there is no shared state before the hooked listener's first co_await *)
+Born == Hooked = {} \/ \E h \in Hooked : st[h] # "new"
+
 Init ==
-    /\ refs = 1
+    /\ refs = IF Hooked = {} THEN 1 ELSE 0
     /\ chain = <<>>
     /\ cur = "null"
     /\ stor = NoStor
@@ -165,6 +176,7 @@ WalkDtor(W, nodes) ==
 (* `co_await emitter` executed by a listener that is not suspended on the emitter *)
 ListenerAwait(l) ==
     /\ l \in Coros /\ st[l] \in {"new", "gate"}
+    /\ Born /\ ~(l \in Hooked /\ st[l] = "new")
     /\ IF refs > 0
          THEN /\ chain' = <<l>> \o chain
               /\ st' = [st EXCEPT ![l] = "waiting"]
@@ -178,6 +190,43 @@ ListenerAwait(l) ==
               /\ since' = IF st[l] = "new" THEN [since EXCEPT ![l] = nemit] ELSE since
               /\ UNCHANGED chain
     /\ UNCHANGED <<refs, cur, stor, cvar, held, sp, queue, nemit>>
+
+(* The first `co_await` on the object returned by signal::hook_up(fn), hook_up_emitter::await_suspend
+   (signal.h:331-339): a new signal is created, the coroutine is SUBSCRIBED (emitter::await_suspend), and only
+   then the registration function is called with the collector: fn(s.get_collector()).  What fn does:
+     n values emitted synchronously through the collector before it returns ("a source that replays its current
+       value to a new observer"); every call's suspend point is discarded inside fn, which runs inside the awaiting
+       coroutine's await_suspend, hence with an active coroutine queue: the released listener is queued.  The first
+       value finds the listener in the chain -- that is the point of hook_up -- the following ones find nobody
+       (the listener has not run yet) and only overwrite the storage: excluded by the discipline (Strict);
+     mode "store": fn keeps the collector (the handle of the history from now on);
+     mode "drop":  fn lets it go: the local signal object of await_suspend is the last reference, ~state runs at
+       the return of await_suspend and the listener is resumed with the exception.
+   On a normal thread the coroutine was started through install_queue_and_resume (async::detach/start), whose
+   queue is flushed as soon as the coroutine has suspended: the queued listener runs within this very action;
+   inside another coroutine it stays in that coroutine's queue (Yield). *)
+HookUp(l, mode, n) ==
+    /\ l \in Hooked /\ st[l] = "new"
+    /\ nemit + n <= MaxEmit
+    /\ Strict => (n <= 1 /\ (mode = "drop" => n = 0))
+    /\ LET alive == mode = "store"
+           lastv == Val(nemit + n)
+           rel == n > 0 \/ ~alive          \* released by the first registration emit, else by ~state
+           got == IF alive THEN lastv ELSE CANCEL
+       IN  /\ refs' = IF alive THEN 1 ELSE 0
+           /\ cur' = IF alive /\ n > 0 THEN "storage" ELSE "null"
+           /\ stor' = IF alive /\ n > 0 THEN [has |-> TRUE, v |-> lastv] ELSE NoStor
+           /\ due' = [due EXCEPT ![l] = IF n > 0 THEN <<Val(nemit + 1)>> ELSE IF alive THEN <<>> ELSE <<CANCEL>>]
+           /\ IF ~rel
+                THEN chain' = <<l>> /\ st' = [st EXCEPT ![l] = "waiting"] /\ UNCHANGED <<received, queue>>
+                ELSE IF CoroMode
+                  THEN /\ queue' = queue \o <<l>> /\ st' = [st EXCEPT ![l] = "released"]
+                       /\ chain' = <<>> /\ UNCHANGED received
+                  ELSE LET W == ResumeOne([chain |-> <<>>, st |-> st, received |-> received], l, got)
+                       IN  chain' = W.chain /\ st' = W.st /\ received' = W.received /\ UNCHANGED queue
+    /\ since' = [since EXCEPT ![l] = nemit]
+    /\ nemit' = nemit + n
+    /\ UNCHANGED <<cvar, held, sp>>
 
 (* signal::connect needs a signal object, hence a live state *)
 Connect(c) ==
@@ -262,6 +311,7 @@ EndScope ==
     /\ UNCHANGED <<refs, chain, cur, stor, held, sp, queue, st, received, due, since, nemit>>
 
 Next == \/ \E l \in Coros : ListenerAwait(l)
+        \/ \E l \in Hooked, m \in {"store", "drop"}, n \in 0..RegEmit : HookUp(l, m, n)
         \/ \E c \in Cbs : Connect(c)
         \/ \E f \in Forms : Emit(f)
         \/ \E h \in {"discard", "await"} : ReleaseSP(h)
@@ -338,7 +388,7 @@ DisconnectPromisesCancel ==
 
 (* awaiting a disconnected emitter fails immediately with the same exception *)
 AwaitDisconnectedFails ==
-    [][\A l \in Coros : (refs = 0 /\ st[l] \in {"new", "gate"} /\ <<st[l], received[l]>> # <<st'[l], received'[l]>>)
+    [][\A l \in Coros : (Born /\ refs = 0 /\ st[l] \in {"new", "gate"} /\ <<st[l], received[l]>> # <<st'[l], received'[l]>>)
           => /\ received'[l] = Append(received[l], CANCEL)
              /\ st'[l] \in {"gate", "done"}]_vars
 
